@@ -86,6 +86,22 @@ def make_decider(rng, mode, holder):
                                 "is_resume": False, "force_run": False})
                     break
                 continue
+            if mode == "retry":
+                # one operator per container, every ready operator (failed ones at once) with little RAM: frequent OOMs of siblings
+                for p in order:
+                    if p["is_complete"]:
+                        continue
+                    for o in p["operators"]:
+                        if cpu < 1 or ram <= 0:
+                            break
+                        if o["is_assignable_state"] and o["parents_complete"] and o["id"] not in taken:
+                            r = min(ram, rng.choice([4.0, 8.0, 8.0, 16.0]))
+                            taken.add(o["id"])
+                            cpu -= 1
+                            ram -= r
+                            asg.append({"operator_ids": [o["id"]], "cpu": 1, "ram_gb": r, "pool_id": pool["pool_id"], "priority": p["priority"],
+                                        "is_resume": False, "force_run": False})
+                continue
             # universal: several containers per pool, random sizes, multi-operator chains in iteration order
             for _ in range(rng.choice([0, 1, 1, 2])):
                 if cpu < 1 or ram <= 0:
@@ -104,7 +120,9 @@ def make_decider(rng, mode, holder):
                     q = rng.choice([x for x in cands if x is not p])          # a container mixing operators of two pipelines
                     more = [o["id"] for o in q["operators"] if o["is_assignable_state"] and o["parents_complete"] and o["id"] not in taken and o["id"] not in ops]
                     ops = ops + more[:1]
-                c = rng.randint(1, max(1, min(cpu, 4)))
+                c = rng.choice([1, 2, 3, 0.5, 1.5, 2.5])           # an external scheduler may ask for fractional cpus
+                if c > cpu:
+                    c = cpu
                 r = rng.choice([ram, ram / 2, min(ram, 16.0), min(ram, 64.0)])
                 if r <= 0:
                     continue
@@ -113,13 +131,35 @@ def make_decider(rng, mode, holder):
                 ram -= r
                 asg.append({"operator_ids": ops, "cpu": c, "ram_gb": r, "pool_id": pool["pool_id"], "priority": p["priority"],
                             "is_resume": False, "force_run": False})
-        if mode != "naive" and holder.get("ex") is not None:
+        if mode == "universal" and holder.get("ex") is not None:
             for R in holder["ex"].pools:
                 for c in R.active_containers:
                     if c.can_suspend_container() and rng.random() < 0.4:
                         sus.append({"container_id": c.container_id, "pool_id": R.pool_id})
         return {"suspensions": sus, "assignments": asg}
     return decide
+
+
+def c4(x):
+    return int(round(float(x) * 4))
+
+
+def scale_cpus(events):
+    """cpu counts may be fractional over REST: hand them to the monitor in quarter cpus (integers)."""
+    for e in events:
+        for pools in ([e["pre"]["pools"]] if e["ev"] == "round" and e.get("pre") else []) + ([e["obs"]["pools"]] if e["ev"] == "exec" else []):
+            for p in pools:
+                p["acpu"] = c4(p["acpu"])
+                for c in p["active"] + p["suspending"]:
+                    c["cpu"] = c4(c["cpu"])
+        if e["ev"] == "round":
+            for a in e["asg"]:
+                a["cpu"] = c4(a["cpu"])
+            for r in e["results"]:
+                r["cpu"] = c4(r["cpu"])
+        if e["ev"] == "exec":
+            for r in e["obs"]["results"]:
+                r["cpu"] = c4(r["cpu"])
 
 
 def translate(body, raw, idx, cids, U, opmap):
@@ -131,13 +171,13 @@ def translate(body, raw, idx, cids, U, opmap):
     def ctr(c):
         ram, ramr = to_units(c["ram_gb"], U)
         mem, memr = to_units(c["current_memory_gb"], U)
-        return {"cid": cids.get(c["container_id"]), "cpu": c["cpu"], "ram": ram, "ramr": ramr, "mem": mem, "memr": memr, "prio": c["priority"][0],
+        return {"cid": cids.get(c["container_id"]), "cpu": c4(c["cpu"]), "ram": ram, "ramr": ramr, "mem": mem, "memr": memr, "prio": c["priority"][0],
                 "ops": [ref(o) for o in c["operator_ids"]]}
     pools = []
     for p in body["pools"]:
         aram, aramr = to_units(p["avail_ram_gb"], U)
         cons, consr = to_units(p["consumed_ram_gb"], U)
-        pools.append({"acpu": p["avail_cpu"], "aram": aram, "aramr": aramr, "cons": cons, "consr": consr,
+        pools.append({"acpu": c4(p["avail_cpu"]), "aram": aram, "aramr": aramr, "cons": cons, "consr": consr,
                       "active": [ctr(c) for c in p["active_containers"]], "suspending": [ctr(c)["cid"] for c in p["suspending_containers"]],
                       "suspended": [ctr(c)["cid"] for c in p["suspended_containers"]]})
 
@@ -150,7 +190,7 @@ def translate(body, raw, idx, cids, U, opmap):
     for r in body["results"]:
         ram, ramr = to_units(r["ram"], U)
         results.append({"cid": cids.get(r["container_id"]), "err": r["error"] or "", "pool": r["pool_id"] + 1, "ops": [ref(o) for o in r["ops"]],
-                        "cpu": r["cpu"], "ram": ram, "prio": r["priority"][0]})
+                        "cpu": c4(r["cpu"]), "ram": ram, "prio": r["priority"][0]})
     return {"tick": body["tick"], "results": results, "new": [pipe(p) for p in body["new_pipelines"]], "other": [pipe(p) for p in body["other_pipelines"]],
             "pools": pools, "leak": repr(SENTINEL_CPU) in raw or "7.654" in raw,
             "topkeys_ok": set(body.keys()) == {"tick", "sim_time_seconds", "results", "new_pipelines", "other_pipelines", "pools"}}
@@ -165,7 +205,7 @@ def run_case(seed, tid):
     rng = random.Random(seed)
     tps = rng.choice([1, 2, 5, 10])
     ticks = rng.choice([40, 90, 160])
-    mode = rng.choice(["universal", "universal", "naive"])
+    mode = rng.choice(["universal", "universal", "naive", "retry"])
     poll = rng.choice([0.0, 1.0 / tps, 3.0 / tps, 1.0, 2.5])
     npools = rng.choice([1, 2])
     cpus = rng.choice([2, 4, 8])
@@ -177,11 +217,12 @@ def run_case(seed, tid):
         for k in range(r2.randint(2, 7)):
             p = Pipeline(f"r{k + 1}", r2.choice(list(Priority)))
             ops = []
-            for i in range(r2.randint(1, 4)):
-                pa = [j for j in range(i) if r2.random() < 0.5]
+            for i in range(r2.randint(1, 4) if mode != "retry" else r2.randint(3, 5)):
+                pa = [j for j in range(i) if r2.random() < 0.5] if mode != "retry" else []
                 o = p.new_operator([ops[j] for j in pa] or None)
                 o.add_segment(Segment(baseline_cpu_seconds=SENTINEL_CPU if r2.random() < 0.5 else SENTINEL_CPU / r2.choice([2, 10, 100]), cpu_scaling=r2.choice(["const", "linear3", "squared"]),
-                                      memory_gb=r2.choice([None, None, 1.0, 13.37]), storage_read_gb=r2.choice([0.0, 20.0 / tps, 55.0, 123.25])))
+                                      memory_gb=r2.choice([None, None, 1.0, 13.37]) if mode != "retry" else None,
+                                      storage_read_gb=r2.choice([0.0, 20.0 / tps, 55.0, 123.25]) if mode != "retry" else r2.choice([1, 2, 3, 4, 6]) * 20.0 / tps + 1.0))
                 ops.append(o)
             arrivals.setdefault(r2.randint(0, ticks // 2), []).append(p)
         return arrivals
@@ -205,10 +246,11 @@ def run_case(seed, tid):
     by_tick, decisions = {}, {}
     for (body, raw), reply in zip(srv.requests, srv.replies):
         rep = {"sus": [{"cid": cids.get(s["container_id"]), "pool": s["pool_id"] + 1} for s in reply["suspensions"]],
-               "asg": [{"ops": [opmap.get(o, [0, 0]) for o in a["operator_ids"]], "cpu": a["cpu"], "ram": to_units(a["ram_gb"], U)[0], "pool": a["pool_id"] + 1,
+               "asg": [{"ops": [opmap.get(o, [0, 0]) for o in a["operator_ids"]], "cpu": c4(a["cpu"]), "ram": to_units(a["ram_gb"], U)[0], "pool": a["pool_id"] + 1,
                         "prio": a["priority"][0]} for a in reply["assignments"]]}
         by_tick.setdefault(body["tick"] - 1, []).append({"req": translate(body, raw, idx, cids, U, opmap), "reply": rep})
-        decisions[body["tick"] - 1] = (rep["sus"], [dict(x, ram_gb=a["ram_gb"]) for x, a in zip(rep["asg"], reply["assignments"])])
+        decisions[body["tick"] - 1] = (rep["sus"], [dict(x, ram_gb=a["ram_gb"], cpu_real=a["cpu"]) for x, a in zip(rep["asg"], reply["assignments"])])
+    scale_cpus(events)
     out = []
     for e in events:
         if e["ev"] == "hdr":
@@ -252,7 +294,7 @@ def replay_decisions(params, arrivals, decisions, tid):
         asg = []
         for a in asg_j:
             ops = [idx.ops[p - 1][i - 1] for p, i in a["ops"]]
-            asg.append(Assignment(ops=ops, cpu=a["cpu"], ram=a["ram_gb"], priority=PR[a["prio"]], pool_id=a["pool"] - 1,
+            asg.append(Assignment(ops=ops, cpu=a["cpu_real"], ram=a["ram_gb"], priority=PR[a["prio"]], pool_id=a["pool"] - 1,
                                   pipeline_id=ops[0].pipeline.pipeline_id))
         return sus, asg
     key = f"verif:restreplay:{tid}"
